@@ -81,7 +81,7 @@ def generate(rng):
         if rng.chance(0.2):
             init = {"HestonStock": [1.05, 0.05], "RoughBergomiStock": [1.05, 0.05]}.get(pkind, [1.05])
         ops.append({"op": "price", "hedge": hedge, "n_paths": rng.npaths([1, 2, 3, 5, 8, 20]), "n_times": rng.choice([1, 1, 2, 3]),
-                    "init_state": init, "torch_seed": rng.seed31(), "k": rng.choice([0.25, -0.125, 1.0, -0.5]),
+                    "init_state": init, "torch_seed": rng.seed31(), "k": rng.choice([0.25, -0.125, 1.0, -0.5, -4.0, 3.0, -8.0]),
                     "clone": rng.chance(0.3)})
     return {"profile": "c06", "env": {"default_dtype": "float32"}, "world": world, "ops": ops, "flat": flat}
 
